@@ -484,6 +484,7 @@ class SourceSet:
             from .tables import expand_tables
             t = expand_tables(t)
             t = _Canon().visit(t)
+            t = _AliasInline().run(t)          # what the expansion made a plain alias of a field (handler = self._process_get) is one now
             for n in ast.walk(t):
                 for c in ast.iter_child_nodes(n):
                     c._parent = n
